@@ -208,7 +208,13 @@ Terminal(st, gg) ==
      \* (F15: an instance lost while the process is STOPPING there leaves STOPPING displayed - listed finding)
      \* (when events are dropped by the scenario - for every remote receiver - only the instance that asked for the
      \* stop can notice and repair: the others are judged when nothing is dropped)
-     \cup (LET judged(p) == IF T.has_drops THEN {gg.sreqby[p]} \ {0} ELSE 1..T.n
+     \* (... which is the case when the requester is the host of the process: it gets the real event locally, nothing
+     \* times out, nothing is forced. A requester that is NOT the host misses the event like everybody else, forces the
+     \* state after its timeout and publishes it: then everybody is judged)
+     \* (a requester that died cannot force anything either)
+     \cup (LET judged(p) == IF T.has_drops /\ (gg.sreqby[p] \in {0, T.procs[p].target} \/ ~st.alive[gg.sreqby[p]]
+                                               \/ gg.sreqby[p] \notin gg.everAlive)
+                            THEN {gg.sreqby[p]} \ {0} ELSE 1..T.n
                bad == {p \in gg.sreq : ~BusySomewhere(st, p) /\ \E i \in judged(p) : st.alive[i] /\ View(st, i, p) \in Busy}
            IN IF bad = {} THEN {}
               ELSE IF \A p \in bad : ~st.alive[T.procs[p].target]
